@@ -284,3 +284,8 @@ def copy_prop(fi: FuncInfo):
 def guard_formula(fi: FuncInfo, node: ast.AST) -> Formula:
     """Path condition of `node` as a formula, with single-assignment boolean locals replaced by their definitions."""
     return conds_formula(conds(fi, node), copy_prop(fi))
+
+
+def truth(fi: FuncInfo, text: str) -> Formula:
+    """Formula of `text` (an expression over the function's variables) with the same copy propagation as guard_formula."""
+    return to_formula(ast.parse(text, mode="eval").body, copy_prop(fi))
